@@ -475,7 +475,12 @@ def exec_schedule(arg) -> dict:
     refs = arg["refs"]
     figdir = arg["figdir"]
     os.makedirs(figdir, exist_ok=True)
-    R.warmup()
+    if plan.get("cold"):
+        # a cold process: the threads' encodes are the first in the process (first-use initialisation, lazily
+        # loaded resources and one-time registrations all happen under the scheduler)
+        R.import_all()
+    else:
+        R.warmup()
     recs = plan["recipes"]
     n = len(recs)
     docs = build_docs(plan, figdir)
@@ -575,7 +580,16 @@ def exec_schedule(arg) -> dict:
             sched.finish(i)
 
     cooplock.SCHED = sched
-    threads = [threading.Thread(target=worker, args=(i,), daemon=True, name=f"sim-{i}") for i in range(n)]
+    if (plan.get("launch") or "plain") == "ctxcopy":
+        # asyncio.to_thread style: each thread runs inside its own copy of the launching (main) context,
+        # which has already encoded once (warmup above)
+        import contextvars
+
+        ctxs = [contextvars.copy_context() for _ in range(n)]
+        threads = [threading.Thread(target=ctxs[i].run, args=(worker, i), daemon=True, name=f"sim-{i}")
+                   for i in range(n)]
+    else:
+        threads = [threading.Thread(target=worker, args=(i,), daemon=True, name=f"sim-{i}") for i in range(n)]
     for t in threads:
         t.start()
     # wait until every worker has registered and parked (they block on their gates)
@@ -641,7 +655,10 @@ def profile_hot(arg) -> dict:
     from . import boot, state
 
     boot.bootstrap(coop_locks=True)
-    R.warmup()
+    if arg.get("cold"):
+        R.import_all()
+    else:
+        R.warmup()
     figdir = arg["figdir"]
     os.makedirs(figdir, exist_ok=True)
     windows = arg.get("windows")  # None or {"<ri>:<rep>": [window indices]}
@@ -806,14 +823,14 @@ def _install_mutator_hooks(hot: dict, boot) -> dict:
     return hits
 
 
-def find_hot_sites(recipes: list, figdir: str, share=None) -> dict:
-    p1 = core.run_in_child(profile_hot, {"recipes": recipes, "figdir": figdir, "share": share})
+def find_hot_sites(recipes: list, figdir: str, share=None, cold=False) -> dict:
+    p1 = core.run_in_child(profile_hot, {"recipes": recipes, "figdir": figdir, "share": share, "cold": cold})
     hot = dict(p1["hot"])  # from the mutator hooks and the component-dirty probe (complete in pass 1)
     if p1.get("component_dirty"):
         hot["<component-dirty>"] = p1["component_dirty"]
     if p1["flagged"]:
         p2 = core.run_in_child(profile_hot, {"recipes": recipes, "figdir": figdir, "windows": p1["flagged"],
-                                             "share": share})
+                                             "share": share, "cold": cold})
         for k, v in p2["hot"].items():
             hot[k] = max(hot.get(k, 0), v)
     return hot
@@ -1061,6 +1078,10 @@ def job(j: dict) -> dict:
         plan = j["plan"]
     else:
         plan = gen_plan(core.rng_for(j["root"], PROP, idx))
+        # how the caller starts its threads: bare threading.Thread (empty context) or the way asyncio.to_thread /
+        # run_in_executor wrappers do it, inside a copy of the launching context (own stream: older seeds keep their plans)
+        plan["launch"] = core.rng_for(j["root"], PROP, "launch", idx).choice(["plain", "ctxcopy"])
+        plan["cold"] = core.rng_for(j["root"], PROP, "cold", idx).random() < 0.25
     refs = ws["refcache"].for_plan(plan)
     t0 = time.monotonic()
     res = run_plan(plan, refs, ws["figdir"])
@@ -1172,6 +1193,22 @@ def hot_job(j: dict) -> dict:
             res = run_plan(plan, refs, ws["figdir"])
             out["hot_steps"][str(order)] = res["hot_steps"] or []
             out["priority_steps"][str(order)] = res.get("priority_steps") or []
+    if j.get("cold_probe"):
+        # the same profile in a COLD process: functions that write shared state only the first time they run
+        # (lazily loaded resources, one-time registrations) - invisible above, where one encode precedes the profile
+        chot = find_hot_sites(j["recipes"], ws["figdir"], share, cold=True)
+        chot.pop("<component-dirty>", None)
+        cold_only = sorted(k for k in chot if k not in hot)
+        out["cold_hot"] = cold_only
+        out["cold_steps"] = {}
+        if cold_only:
+            refs = {str(i): ws["refcache"].get(r) for i, r in enumerate(j["recipes"])}
+            for order in (0, 1):
+                plan = {"recipes": j["recipes"], "decider": {"kind": "sweep"}, "first": order, "trace_mode": "hot",
+                        "hot_sites": cold_only, "decisions": [], "abort": None, "list_hot_steps": True,
+                        "share": share, "cold": True}
+                res = run_plan(plan, refs, ws["figdir"])
+                out["cold_steps"][str(order)] = res["hot_steps"] or []
     return out
 
 
@@ -1185,7 +1222,7 @@ def _pick(steps: list, priority: list, m: int) -> list:
 
 
 def sweep_jobs(root: int, groups: list, refcache: RefCache, specs: list, hot_info: dict, hot_cap: int,
-               hot3_cap: int = 400) -> list:
+               hot3_cap: int = 400, cold_cap: int = 200) -> list:
     """specs: [(group index, trace mode, stride)]; hot_info: group index -> hot_job result."""
     jobs = []
     idx = 10_000_000
@@ -1274,6 +1311,27 @@ def sweep_jobs(root: int, groups: list, refcache: RefCache, specs: list, hot_inf
                 jobs.append({"idx": idx, "sweep": {"group": name, "order": order, "k": k, "K": len(steps),
                                                    "mode": "hot", "stride": stride}, "plan": plan})
                 idx += 1
+    # cold process: every statement of the functions that write shared state only on first use, one pre-emption,
+    # both orders (the other thread then runs its whole encode while the first sits inside the initialisation)
+    for gi, info in sorted(hot_info.items()):
+        name, a, b = groups[gi]
+        if not info.get("cold_hot"):
+            continue
+        for order in (0, 1):
+            steps = info.get("cold_steps", {}).get(str(order), [])
+            stride = max(1, -(-len(steps) // cold_cap))
+            for k in steps[::stride]:
+                plan = {"recipes": [a, b], "decider": {"kind": "sweep"}, "first": order, "trace_mode": "hot",
+                        "hot_sites": list(info["cold_hot"]), "decisions": [[k, 1 - order]], "abort": None,
+                        "share": GROUP_SHARE.get(name), "cold": True}
+                jobs.append({"idx": idx, "sweep": {"group": name, "order": order, "k": k, "K": len(steps),
+                                                   "mode": "coldhot", "stride": stride}, "plan": plan})
+                idx += 1
+    for n_, j in enumerate(jobs):
+        # alternate the thread-launch style over every sweep (identical behaviour unless the library keeps
+        # state in context variables)
+        j["plan"]["launch"] = "ctxcopy" if n_ % 2 else "plain"
+        j["sweep"]["launch"] = j["plan"]["launch"]
     return jobs
 
 
@@ -1282,10 +1340,12 @@ def sweep_jobs(root: int, groups: list, refcache: RefCache, specs: list, hot_inf
 # --------------------------------------------------------------------------
 
 TIERS = {"quick": {"runs": 320, "wall": 420.0, "groups": 9, "hot_cap": 600, "hot3_cap": 100,
+                   "cold_groups": (0, 1, 2, 4, 7, 8), "cold_cap": 150,
                    "sweeps": [(0, "call", 96), (1, "call", 96), (2, "call", 12), (3, "call", 128), (4, "call", 96),
                               (5, "call", 4096), (6, "call", 96), (7, "call", 24), (8, "call", 32), (8, "grid2", 16),
                               (0, "line", 768)]},
          "thorough": {"runs": 60000, "wall": 3000.0, "groups": 12, "hot_cap": 4000, "hot3_cap": 2500,
+                      "cold_groups": tuple(range(12)), "cold_cap": 4000,
                       "sweeps": [(i, "callret", 1) for i in range(12)] + [(i, "line", 4) for i in range(12)]
                       + [(8, "grid2", 2), (7, "grid2", 4), (3, "grid2", 64)]}}
 
@@ -1307,7 +1367,8 @@ def main(opts) -> int:
     figdir = tempfile.mkdtemp(prefix="vc15main_")
     rc = RefCache(figdir)
     groups = sweep_groups(root, tier["groups"])
-    hres, _ = core.pool_map(hot_job, [{"recipes": [a, b], "name": _n} for _n, a, b in groups])
+    hres, _ = core.pool_map(hot_job, [{"recipes": [a, b], "name": _n, "cold_probe": gi in tier["cold_groups"]}
+                                      for gi, (_n, a, b) in enumerate(groups)])
     hot_info = {}
     herrs = []
     for gi, r in sorted(hres.items()):
@@ -1315,7 +1376,8 @@ def main(opts) -> int:
             herrs.append(f"hot profile of group {gi}: {r['harness_error'][:500]}")
         else:
             hot_info[gi] = r
-    sjobs = sweep_jobs(root, groups, rc, tier["sweeps"], hot_info, tier["hot_cap"], tier.get("hot3_cap", 400))
+    sjobs = sweep_jobs(root, groups, rc, tier["sweeps"], hot_info, tier["hot_cap"], tier.get("hot3_cap", 400),
+                       tier.get("cold_cap", 200))
     seeded = [{"root": root, "idx": i} for i in range(runs)]
     jobs = seeded[:16] + sjobs + seeded[16:]  # a wall-cap truncation must not starve either kind
     results, truncated = core.pool_map(job, jobs, wall_cap=wall)
